@@ -243,11 +243,24 @@ func ruleRecEntry(c *Ctx, r *R) {
 		}
 		if st, ok := ins.(*ssa.Store); ok && isFieldAddr(st.Addr, "scope", "depth") {
 			if bo, ok := st.Val.(*ssa.BinOp); ok && bo.Op == token.ADD {
-				// the increment must sit behind a comparison with the limit in the same function
+				// the increment must sit behind a comparison with the limit in the same function (or in a helper that only
+				// this function calls: the check extracted into a method)
+				fams := []*ssa.Function{evalFn}
 				for _, b := range evalFn.Blocks {
 					for _, i2 := range b.Instrs {
-						if ld, ok := i2.(*ssa.UnOp); ok && ld.Op == token.MUL && isFieldAddr(ld.X, "runtime", "stackLimit") {
-							return true
+						if cl, ok := i2.(*ssa.Call); ok {
+							if cal := cl.Call.StaticCallee(); cal != nil && cal.Blocks != nil && cal.Pkg == evalFn.Pkg && c.partOf(cal, evalFn.Name(), 0) {
+								fams = append(fams, cal)
+							}
+						}
+					}
+				}
+				for _, fam := range fams {
+					for _, b := range fam.Blocks {
+						for _, i2 := range b.Instrs {
+							if ld, ok := i2.(*ssa.UnOp); ok && ld.Op == token.MUL && isFieldAddr(ld.X, "runtime", "stackLimit") {
+								return true
+							}
 						}
 					}
 				}
